@@ -162,6 +162,14 @@ def check_seq(content, kw, acc, fam):
                 pars.add(rep.sa[2])
         elif rep.sa is not None and (rep.sa[0] != 0 or rep.sa[1] != 0):
             viol.append(('sa-header', 'single symbol with header %r' % (rep.sa,), None))
+        # the mode of a homogeneous message is the most compact one (C07) in every symbol, and with boost_error=False the level
+        # is exactly the requested one (C05)
+        if fam in FAM_MODE and kw.get('mode') is None and kw.get('encoding') is None and rep.segments and any(sg.mode != FAM_MODE[fam] for sg in rep.segments):
+            viol.append(('mode', 'symbol %d uses mode(s) %r for a %s message' % (i, sorted({sg.mode for sg in rep.segments}), FAM_MODE[fam]), None))
+        if kw.get('boost_error', True) is False and qr.error != (kw.get('error') or 'L'):
+            viol.append(('level', 'symbol %d has level %r although %r was requested with boost_error=False' % (i, qr.error, kw.get('error') or 'L'), None))
+        if qr.error is None or ('L', 'M', 'Q', 'H').index(qr.error) < ('L', 'M', 'Q', 'H').index(kw.get('error') or 'L'):
+            viol.append(('level', 'symbol %d has level %r, below the requested %r' % (i, qr.error, kw.get('error') or 'L'), None))
         payload += rep.payload or b''
         pieces.append(((rep.payload or b'') + (rep.partial or b''), rep.partial is not None))
     if n > 1 and len(pars) > 1:
@@ -259,6 +267,14 @@ def run_case(case, acc):
                                 kw['boost_error'] = False
                             check_seq(content_of(fam, n), kw, acc, fam)
     elif kind == 'misc':
+        # more digits than the largest symbol holds (the mode is detected on the whole message)
+        for n, kw in ((7090, {'symbol_count': 2}), (7100, {'version': 40}), (7090, {'symbol_count': 2, 'mode': 'numeric'})):
+            check_seq(content_of('digits', n), kw, acc, 'digits')
+        for fam in ('digits', 'alnum', 'latin'):
+            for n in (3, 9, 12):
+                for v in (1, 2):
+                    for lvl in ('L', 'M'):
+                        check_seq(content_of(fam, n), {'version': v, 'error': lvl, 'boost_error': False}, acc, fam)
         for fam in ('latin', 'utf8', 'kanji'):
             for n in (10, 40, 100):
                 for kw in ({'version': 1, 'encoding': 'utf-8'}, {'symbol_count': 3, 'encoding': 'utf-8'}, {'version': 2, 'encoding': 'shift_jis'},
